@@ -25,7 +25,7 @@ class World2:
     def __init__(self, case, tmpdir, tag):
         import ZODB
         import transaction
-        from c11_classes import PMap
+        from c11_classes import Node
         self.dbs = {}
         self.st1 = make_storage(case['kind'], tmpdir, tag + 'a')
         self.st2 = make_storage(case['kind'], tmpdir, tag + 'b')
@@ -34,9 +34,10 @@ class World2:
         self.tm = transaction.TransactionManager()
         self.conn = self.db1.open(self.tm)
         self.aux = self.conn.get_connection('aux')
-        self.conn.root()['p'] = PMap(v=0)
-        self.aux.root()['s'] = PMap(v=0)
+        self.conn.root()['p'] = Node()      # (a class written in C style: a refused registration changes nothing)
+        self.aux.root()['s'] = Node()
         self.tm.commit()
+        self.sps = []
         self.fetch()
 
     def fetch(self):
@@ -56,7 +57,7 @@ class World2:
             ch = o._p_changed
             s = '%s:%s' % (name, 'G' if ch is None else ('C' if ch else 'U'))
             if ch is not None:
-                s += '=%s' % o.__dict__.get('data', {}).get('v', '?')
+                s += '=%s' % o.__dict__.get('v', '?')
             out.append(s)
         return ' '.join(out)
 
@@ -66,8 +67,8 @@ class World2:
         c = self.db1.open(tmx)
         try:
             if which == 'P':
-                return 'v=%d' % c.root()['p']['v']
-            return 'v=%d' % c.get_connection('aux').root()['s']['v']
+                return 'v=%d' % c.root()['p'].v
+            return 'v=%d' % c.get_connection('aux').root()['s'].v
         finally:
             tmx.abort()
             c.close()
@@ -76,10 +77,37 @@ class World2:
         t = op.split()
         try:
             if t[0] in ('modP', 'modS'):
-                (self.P if t[0] == 'modP' else self.S)['v'] = int(t[1])
+                (self.P if t[0] == 'modP' else self.S).v = int(t[1])
                 r = 'ok'
             elif t[0] in ('readP', 'readS'):
-                r = 'v=%d' % (self.P if t[0] == 'readP' else self.S)['v']
+                r = 'v=%d' % (self.P if t[0] == 'readP' else self.S).v
+            elif t[0] == 'sp':
+                self.sps.append(self.tm.savepoint())        # a savepoint spanning both databases
+                r = 'ok'
+            elif t[0] == 'rb':
+                if int(t[1]) >= len(self.sps):
+                    r = 'err:InvalidSavepoint'
+                else:
+                    self.sps[int(t[1])].rollback()
+                    r = 'ok'
+            elif t[0] == 'extP':
+                # an independent connection pair commits a new value of P
+                import transaction
+                tmx = transaction.TransactionManager()
+                c = self.db1.open(tmx)
+                try:
+                    c.root()['p'].v = int(t[1])
+                    tmx.commit()
+                finally:
+                    tmx.abort()
+                    c.close()
+                r = 'ok'
+            elif t[0] == 'commitx':
+                # commit WITHOUT the abort the harness otherwise issues after a failure: the manager is shared by
+                # the connections of the group, the failed transaction stays current until it is aborted
+                self.sps = []
+                self.tm.commit()
+                r = 'ok'
             elif t[0] == 'closeP':
                 self.conn.close()
                 r = 'ok'
@@ -94,9 +122,11 @@ class World2:
                 self.fetch()
                 r = 'ok'
             elif t[0] == 'commit':
+                self.sps = []
                 self.tm.commit()
                 r = 'ok'
             elif t[0] == 'abort':
+                self.sps = []
                 self.tm.abort()
                 r = 'ok'
             elif t[0] in ('peekP', 'peekS'):
@@ -105,7 +135,7 @@ class World2:
                 r = 'bad-op'
         except Exception as e:
             n = errname(e)
-            r = ('fail:' if t[0] == 'commit' else 'err:') + n
+            r = ('fail:' if t[0] in ('commit', 'commitx') else 'err:') + n
             if t[0] == 'commit':
                 try:
                     self.tm.abort()
@@ -135,9 +165,14 @@ def judge(case, real):
     """-> None | ('taint', idx) | (idx, signature, what)"""
     com = {'P': 0, 'S': 0}
     vis = dict(com)
-    dirty = set()
+    dirty = set()       # modified since the last savepoint: must be marked changed
+    touched = set()     # modified in this transaction: their connections are joined, commit writes them
+    unsure = False      # after a rollback the oracle does not say which connections are still joined
     closed = False
     damaged = False     # a close was refused while only the secondary connection was joined (finding D3)
+    sps = []            # savepoints: (vis, touched) or None when invalidated
+    stale = False       # another pair committed P since this transaction's view was taken
+    failed = None       # the shared manager's current transaction failed and is not aborted yet: touched then
 
     def sig(op, what):
         return D3 if damaged else 'C11:multidb:%s:%s' % (op.split()[0], what)
@@ -147,26 +182,64 @@ def judge(case, real):
         k = t[0]
         if closed and k not in ('open', 'peekP', 'peekS', 'commit', 'abort', 'reset'):
             return ('taint', idx)
+        if failed is not None and k not in ('modP', 'modS', 'abort', 'peekP', 'peekS'):
+            return ('taint', idx)
+        will_damage = False
         if k == 'reset':
             if not closed:
                 return ('taint', idx)       # (only between close and open: the application drops its objects)
             exp = 'ok'
-            if res != exp:
-                return (idx, sig(op, 'result'), 'op %r returned %r' % (op, res))
-            continue
-        if k in ('modP', 'modS'):
+        elif k in ('modP', 'modS') and failed is not None:
+            # refused (TransactionFailedError) — and the refusal changes nothing: after the abort the
+            # connection takes part in the next transaction as usual
+            if k[-1] in failed:
+                return ('taint', idx)       # (only for a connection that had not joined)
+            exp = 'err:TransactionFailed'
+        elif k in ('modP', 'modS'):
             exp = 'ok'
             vis[k[-1]] = int(t[1])
             dirty.add(k[-1])
+            touched.add(k[-1])
         elif k in ('readP', 'readS'):
             exp = 'v=%d' % vis[k[-1]]
+        elif k == 'sp':
+            sps.append((dict(vis), set(touched)))
+            dirty = set()
+            exp = 'ok'
+        elif k == 'rb':
+            n = int(t[1])
+            if n >= len(sps) or sps[n] is None:
+                exp = 'err:InvalidSavepoint'
+            else:
+                vis, touched, dirty = dict(sps[n][0]), set(sps[n][1]), set()
+                unsure = True
+                for m in range(n + 1, len(sps)):
+                    sps[m] = None
+                exp = 'ok'
+        elif k == 'extP':
+            com['P'] = int(t[1])
+            stale = True
+            exp = 'ok'
+        elif k in ('commit', 'commitx'):
+            sps = []
+            if 'P' in touched and stale and not closed:
+                exp = 'fail:Conflict'
+                if k == 'commitx':
+                    failed = set(touched)
+                else:                       # (the harness aborts at once)
+                    vis, dirty, touched, stale, unsure = dict(com), set(), set(), False, False
+            else:
+                exp = 'ok'
+                if not closed:
+                    com.update({x: vis[x] for x in touched})
+                    vis, stale = dict(com), False
+                dirty, touched, unsure = set(), set(), False
         elif k == 'closeP':
-            if dirty:
+            if unsure:
+                return ('taint', idx)
+            if touched:
                 exp = 'err:ConnState'
-                if dirty == {'S'}:
-                    will_damage = True
-                else:
-                    will_damage = False
+                will_damage = touched == {'S'}
             else:
                 exp = 'ok'
                 closed = True
@@ -177,15 +250,12 @@ def judge(case, real):
             closed = False
             damaged = False
             vis = dict(com)
-        elif k == 'commit':
-            exp = 'ok'
-            if not closed:
-                com = dict(vis)
-            dirty = set()
+            stale = False
         elif k == 'abort':
             exp = 'ok'
-            vis = dict(com)
-            dirty = set()
+            if not closed:
+                vis, stale = dict(com), False
+            dirty, touched, sps, unsure, failed = set(), set(), [], False, None
         elif k in ('peekP', 'peekS'):
             exp = 'v=%d' % com[k[-1]]
         else:
@@ -194,12 +264,12 @@ def judge(case, real):
             if k == 'closeP' and exp != 'ok' and res == 'ok':
                 return (idx, 'C11:multidb:closeP:result',
                         'close() succeeded although a connection of the group (%s) is joined to a transaction'
-                        % ','.join(sorted(dirty)))
+                        % ','.join(sorted(touched)))
             return (idx, sig(op, 'result'), 'op %r returned %r, the property requires %r%s'
                     % (op, res, exp, ' (after a refused close)' if damaged else ''))
-        if k == 'closeP' and exp != 'ok' and will_damage:
+        if will_damage:
             damaged = True
-        if closed:
+        if closed or failed is not None:
             continue
         for item in vec.split():
             name, rest = item.split(':')
@@ -218,6 +288,14 @@ def judge(case, real):
 
 
 def gen(rng, kind):
+    if rng.random() < 0.2:
+        # the manager is shared by the group: a commit fails (conflict on P), and BEFORE the abort an object of
+        # the connection that had not joined is touched: refused, without any lasting effect
+        v = rng.randrange(1, 9)
+        ops = ['modP %d' % v, 'extP %d' % (10 + v), 'commitx', 'modS %d' % (v + 1), 'abort', 'readS',
+               'modS %d' % (v + 2), rng.choice(['commit', 'abort']), 'peekS', 'readS', 'closeP', 'open', 'readS', 'readP']
+        return dict(kind=kind, n=2, ops=ops, family='multidb')
+    nsp = 0
     ops = []
     closed = False
     size = rng.choice([5, 8, 12, 16])
@@ -235,13 +313,22 @@ def gen(rng, kind):
             ops.append('modP %d' % v)
         elif r < 0.42:
             ops.append(rng.choice(['readP', 'readS']))
+        elif r < 0.48:
+            ops.append('sp')
+            nsp += 1
+        elif r < 0.53 and nsp:
+            ops.append('rb %d' % rng.randrange(nsp))
+        elif r < 0.56:
+            ops.append('extP %d' % (10 + v))
         elif r < 0.64:
             ops.append('closeP')
             closed = None      # unknown to the generator: decided below
         elif r < 0.78:
             ops.append('commit')
+            nsp = 0
         elif r < 0.90:
             ops.append('abort')
+            nsp = 0
         else:
             ops.append(rng.choice(['peekP', 'peekS']))
         if closed is None:
@@ -362,6 +449,8 @@ def run_real_x(case, tmpdir, tag):
 def judge_x(case, real):
     com = vis = 0
     intxn = dirty = closed = False
+    fresh = True        # False between a reopen and the next begin(): an explicit manager refreshes the view of a
+    #                     pooled connection only when a transaction begins
     for idx, op in enumerate(case['ops'], 1):
         res, vec = real[idx].split(' | ')
         t = op.split()
@@ -372,7 +461,7 @@ def judge_x(case, real):
             if intxn:
                 exp = 'err:AlreadyInTransaction'
             else:
-                exp, intxn, vis = 'ok', True, com
+                exp, intxn, vis, fresh = 'ok', True, com, True
         elif k == 'commit':
             if not intxn:
                 exp = 'err:NoTransaction'
@@ -389,6 +478,8 @@ def judge_x(case, real):
             else:
                 exp, vis, dirty = 'ok', int(t[1]), True
         elif k == 'read':
+            if not fresh:
+                continue
             exp = 'v=%d' % vis
         elif k == 'close':
             if intxn:
@@ -397,7 +488,7 @@ def judge_x(case, real):
         elif k == 'open':
             if not closed:
                 return ('taint', idx)
-            exp, closed = 'ok', False
+            exp, closed, fresh = 'ok', False, intxn
         elif k == 'peek':
             exp = 'v=%d' % com
         else:
@@ -413,7 +504,7 @@ def judge_x(case, real):
                     'the object was modified but _p_changed is %s after %r' % (st, op))
         if not dirty and st == 'C':
             return (idx, 'C11:explicit:%s:object-not-clean' % k, 'the object is marked changed after %r' % op)
-        if st != 'G' and val != str(vis):
+        if fresh and st != 'G' and val != str(vis):
             return (idx, 'C11:explicit:%s:value' % k, 'the object shows %s, expected %d after %r' % (val, vis, op))
     return None
 
